@@ -42,6 +42,8 @@ static void dump(const buf_t* b) {
     for (size_t i = 0; i < b->n; i++) printf("%02x", b->p[i]);
     putchar('\n');
 }
+/* "NULL" as buffer id denotes the null pointer */
+static int is_null(const char* id) { return !strcmp(id, "NULL"); }
 static const hv_format_t* fmt(const char* name) {
     for (int i = 0; i < hv_nformats; i++) if (!strcmp(hv_formats[i]->name, name)) return hv_formats[i];
     return NULL;
@@ -64,24 +66,41 @@ int main(void) {
         if (!strcmp(tok[0], "dump") && nt == 2) { buf_t* b = find(tok[1]); if (b) dump(b); else puts("bad-op"); continue; }
         if (!strcmp(tok[0], "get") && nt == 6) {
             buf_t* b = find(tok[1]); const hv_format_t* f = fmt(tok[3]);
-            if (!b || !f) { puts("bad-op"); continue; }
+            if ((!b && !is_null(tok[1])) || !f) { puts("bad-op"); continue; }
             uint64_t out = 0;
-            int r = f->get(b->p + atol(tok[2]), atoi(tok[4]), tok[5][0], &out);
+            int r = f->get(b ? b->p + atol(tok[2]) : NULL, atoi(tok[4]), tok[5][0], &out);
             if (r == -1) puts("no-accessor"); else if (r) printf("err %d\n", r); else printf("v %" PRIu64 "\n", out);
             continue;
         }
         if (!strcmp(tok[0], "set") && nt == 7) {
             buf_t* b = find(tok[1]); const hv_format_t* f = fmt(tok[3]);
-            if (!b || !f) { puts("bad-op"); continue; }
-            int r = f->set(b->p + atol(tok[2]), atoi(tok[4]), tok[5][0], strtoull(tok[6], NULL, 10));
+            if ((!b && !is_null(tok[1])) || !f) { puts("bad-op"); continue; }
+            int r = f->set(b ? b->p + atol(tok[2]) : NULL, atoi(tok[4]), tok[5][0], strtoull(tok[6], NULL, 10));
             if (r == -1) puts("no-accessor"); else if (r) printf("err %d\n", r);
             continue;
         }
         if (!strcmp(tok[0], "init") && (nt == 5 || nt == 6)) {
             buf_t* b = find(tok[1]); const hv_format_t* f = fmt(tok[3]);
-            if (!b || !f) { puts("bad-op"); continue; }
+            if ((!b && !is_null(tok[1])) || !f) { puts("bad-op"); continue; }
             int ret = 0;
-            int r = f->init(b->p + atol(tok[2]), tok[4][0], nt == 6 ? strtoull(tok[5], NULL, 10) : 0, &ret);
+            int r = f->init(b ? b->p + atol(tok[2]) : NULL, tok[4][0], nt == 6 ? strtoull(tok[5], NULL, 10) : 0, &ret);
+            if (r == -1) puts("no-accessor"); else printf("r %d\n", ret);
+            continue;
+        }
+        /* by raw numeric identifier: getid <buf|NULL> <off> <fmt> <id> <path g|l> <null result ptr 0|1> */
+        if (!strcmp(tok[0], "getid") && nt == 7) {
+            buf_t* b = find(tok[1]); const hv_format_t* f = fmt(tok[3]);
+            if ((!b && !is_null(tok[1])) || !f) { puts("bad-op"); continue; }
+            uint64_t out = 0xA5A5A5A5A5A5A5A5ull; int ret = 0;
+            int r = f->get_id(b ? b->p + atol(tok[2]) : NULL, strtoull(tok[4], NULL, 10), tok[5][0], &out, atoi(tok[6]), &ret);
+            if (r == -1) puts("no-accessor"); else printf("r %d v %" PRIu64 "\n", ret, out);
+            continue;
+        }
+        if (!strcmp(tok[0], "setid") && nt == 7) {
+            buf_t* b = find(tok[1]); const hv_format_t* f = fmt(tok[3]);
+            if ((!b && !is_null(tok[1])) || !f) { puts("bad-op"); continue; }
+            int ret = 0;
+            int r = f->set_id(b ? b->p + atol(tok[2]) : NULL, strtoull(tok[4], NULL, 10), tok[5][0], strtoull(tok[6], NULL, 10), &ret);
             if (r == -1) puts("no-accessor"); else printf("r %d\n", ret);
             continue;
         }
